@@ -16,7 +16,7 @@ assumed interfaces) plus directives that pull the *real* items out of the reposi
 What extraction changes (everything else is byte-identical to the repository text):
   T1 attributes and doc comments are dropped; cfg(test) items are never extracted
   T2 statements that are only a logging macro call are dropped
-  T3 unwrap!(e[, ..]) -> (e).unwrap()
+  T3 unwrap!(e[, ..]) -> (e).unwrap();  assert!(c[, ..]) / debug_assert!(c) -> assert(c) (a panic is an obligation)
   T4 visibility only: `pub(crate)`/private items and struct fields become `pub`
   T5 the //@+ insertions above (only at those three kinds of position)
 Exit status of a unit: ok / failed (an obligation of an extracted function is refuted) / undecided
@@ -92,6 +92,24 @@ def transform(text, is_struct=False):
                         i = m + 1
                         continue
                     raise ExtractError("logging macro %s! in expression position" % t.text)
+                if t.text in ("assert", "debug_assert"):
+                    # T3: a run-time assertion is a proof obligation (a panic must be unreachable)
+                    inner = toks[j + 1:k]
+                    depth = 0
+                    cut = len(inner)
+                    for q, u in enumerate(inner):
+                        if u.kind == "punct":
+                            if u.text in OPEN:
+                                depth += 1
+                            elif u.text in CLOSE:
+                                depth -= 1
+                            elif u.text == "," and depth == 0:
+                                cut = q
+                                break
+                    expr = "".join(u.text for u in inner[:cut]).strip()
+                    out.append("assert(" + transform(expr) + ")")
+                    i = k + 1
+                    continue
                 if t.text == "unwrap":
                     inner = toks[j + 1:k]
                     # split at top-level comma
